@@ -267,11 +267,43 @@ class Judge:
 
     def alt_float(self, t, s):
         """diagnosis: verdict of the model when xs:float literals are kept in binary64 precision"""
-        D.FLOAT_AS_DOUBLE = True
+        return self.alt(t, s, 'FLOAT_AS_DOUBLE')
+
+    def alt(self, t, s, flag):
+        setattr(D, flag, True)
         try:
             return D.Evaluator().evaluate(t, s)
         finally:
-            D.FLOAT_AS_DOUBLE = False
+            setattr(D, flag, False)
+
+    def diagnose(self, t, s, lib_ok, cls, code=''):
+        """name the construct class of a disagreement after a known deviation when re-evaluating the model with that one
+        deviation switched on reproduces the library's verdict; otherwise keep the lexical class"""
+        want = ACCEPT if lib_ok else REJECT
+        if D.involves(t, ('float',)) and self.alt(t, s, 'FLOAT_AS_DOUBLE').v == want:
+            return 'float-compared-as-double'
+        if D.involves(t, ('duration',)) and self.alt(t, s, 'DURATION_IGNORE_FRACTION').v == want:
+            return 'duration-fraction-ignored'
+        if any(ord(ch) > 0xFFFF for ch in s) and (deep_facet_kinds(t) & {'length', 'minLength', 'maxLength'}) and self.alt(t, s, 'STRING_LENGTH_UTF16').v == want:
+            return 'length-in-utf16-units'
+        if D.involves_variety(t, 'union') and 'enumeration' in deep_facet_kinds(t) and self.alt(t, s, 'UNION_ENUM_ANY_MEMBER').v == want:
+            return 'enum-matched-through-other-member'
+        if D.involves(t, ('hexBinary', 'base64Binary')) and 'enumeration' in deep_facet_kinds(t) and not lib_ok and code == '216':
+            lits = set()
+
+            def walk(x):
+                for a in x.chain():
+                    for fn, fv in a.facets:
+                        if fn == 'enumeration':
+                            lits.add(fv)
+                if x.item is not None:
+                    walk(x.item)
+                for m in x.members:
+                    walk(m)
+            walk(t)
+            if not any(tok in lits for tok in s.split(' ')) and s not in lits:
+                return 'binary-enumeration-compared-lexically'
+        return cls
 
     def violation(self, key, what, c, idx, extra=(), expected=None, observed=None):
         self.F.viol.append((key, what, {'case': reduced_case(c, idx, extra), 'step': c.steps[idx][2].get('i'), 'expected': expected, 'observed': observed}))
@@ -397,8 +429,7 @@ class Judge:
                     ktk = tk
                     if mv.why.startswith('lex:') or (mv.v == ACCEPT and not t.facet_kinds()):
                         ktk = t.builtin_ancestor().name        # lexical verdicts do not depend on the user facets
-                    if D.involves(t, ('float',)) and self.alt_float(t, s).v == (ACCEPT if lib_ok else REJECT):
-                        cls = 'float-compared-as-double'
+                    cls = self.diagnose(t, s, lib_ok, cls, l[2].split(':')[-1])
                     if mv.v == ACCEPT:
                         self.violation('C09:rejects:%s:%s:%s' % (ktk, cls, l[2].split(':')[-1]), 'validator rejects a literal that is in the lexical space and satisfies every facet', c, idx,
                                        expected='accept', observed=l[2])
@@ -425,6 +456,8 @@ class Judge:
         if kv.get('self') != '0':
             self.violation('C09:axiom:compare-self:%s:%s' % (tk, cls), 'compare(x,x) is not EQUAL', c, idx, expected='0', observed=kv.get('self'))
         all_facets = deep_facet_kinds(t)
+        if t.variety == 'atomic':
+            tk = t.builtin_ancestor().name          # the canonical-form axioms do not depend on the user facets
         if cv == '~' or cv.startswith('!'):
             F.count('canon:null-for-valid:' + (t.builtin_ancestor().name if t.variety == 'atomic' else t.variety))
             if cv.startswith('!'):
@@ -444,9 +477,10 @@ class Judge:
             if kv.get('cn') != cv:
                 self.violation('C09:axiom:canon-validate-flag:%s:%s' % (tk, cls), 'canonical form differs with toValidate on/off', c, idx, expected=cv, observed=kv.get('cn'))
             # a canonical literal need not satisfy lexical facets (pattern, lengths of the literal): not demanded
-            if kv.get('vc') != 'OK' and not (all_facets & {'pattern', 'length', 'minLength', 'maxLength', 'whiteSpace'}):
+            lexical_facets = bool(all_facets & {'pattern', 'length', 'minLength', 'maxLength', 'whiteSpace'})
+            if kv.get('vc') != 'OK' and not lexical_facets and not grey:
                 self.violation('C09:axiom:canon-invalid:%s:%s' % (tk, cls), 'the canonical form of a valid literal does not validate', c, idx, expected='canon validates', observed=[cv, kv.get('vc')])
-            if kv.get('vc') == 'OK' and not grey:
+            if kv.get('vc') == 'OK' and not grey and not (lexical_facets and t.variety == 'union'):
                 if kv.get('cmp') != '0' or kv.get('cmpr') != '0':
                     self.violation('C09:axiom:canon-changes-value:%s:%s' % (tk, cls), 'compare(x, canon(x)) is not EQUAL', c, idx, expected='0/0', observed=[cv, kv.get('cmp'), kv.get('cmpr')])
                 if kv.get('cc') != cv:
@@ -528,6 +562,10 @@ class Judge:
         F.count('matrices')
         F.count('matrix:' + (t.builtin_ancestor().name if t.variety == 'atomic' else t.variety))
         use = [i for i in range(n) if valid[i] and mvs[i].v == ACCEPT]
+        if any(x == '-2' for row in M for x in row):
+            i, j = next((i, j) for i in range(n) for j in range(n) if M[i][j] == '-2')
+            self.violation('C09:order:invalid-result:%s:-2' % tk, 'compare() returned -2 (not one of LESS_THAN, EQUAL, GREATER_THAN, INDETERMINATE)', c, idx, expected='-1, 0, 1 or 2', observed=[vals[i], vals[j], '-2'])
+            M = [['2' if x == '-2' else x for x in row] for row in M]
 
         def sym(x):
             return {'-1': '1', '1': '-1'}.get(x, x)
@@ -559,6 +597,10 @@ class Judge:
                                         ci = cj = 'float-compared-as-double'
                                 except D.Skip:
                                     pass
+                            if prim == 'duration':
+                                a1, a2 = D.parse_duration(vals[i]), D.parse_duration(vals[j])
+                                if str(D.cmp_duration((a1[0], Fraction(int(a1[1]))), (a2[0], Fraction(int(a2[1]))))) == o:
+                                    ci = cj = 'duration-fraction-ignored'
                             self.violation('C09:order:%s:expected%s-got%s:%s' % (tk, e, o, '|'.join(sorted(set((ci, cj))))), 'compare(a,b) differs from the XSD 1.0 order relation', c, idx,
                                            expected=e, observed=[vals[i], vals[j], o])
                     else:
@@ -629,7 +671,7 @@ class Judge:
         if r1 is None:
             return
         if r1 != p_ok:
-            self.violation('C09:diff:validator-vs-parse:%s:%s:%s' % (tk, cls, 'parse-accepts' if p_ok else 'parse-rejects:' + ','.join(sorted(set(e[3] for e in errs)))),
+            self.violation('C09:diff:validator-vs-parse:%s:%s:%s:%s' % (tk, cls, 'parse-accepts' if p_ok else 'parse-rejects:' + ','.join(sorted(set(e[3] for e in errs))), 'attr' if o.get('att') == '1' else 'elem'),
                            'in-parse validation and DatatypeValidator::validate disagree on the same (normalised) literal', c, idx, extra=(vstep.get((t.name, norm), idx),),
                            expected='validator: %s' % r1, observed='parse: %s %s' % (p_ok, [e[1:4] for e in errs]))
             return
@@ -675,6 +717,10 @@ class Judge:
                 continue
             tk = tkey(t)
             cls = 'items:' + '+'.join(sorted(set(lit_class(t.item, tok) for tok in s.split(' ') if tok))) if t.variety == 'list' and t.item.variety == 'atomic' else D.shape(s)
+            cls2 = self.diagnose(t, s, lib_ok, cls, lraw.split(':')[-1])
+            if cls2 != cls:
+                cls = cls2
+                tk = t.variety + ('{' + ','.join(sorted(t.facet_kinds())) + '}' if t.facet_kinds() else '')
             if mv.v == ACCEPT:
                 self.violation('C09:rejects:%s:%s:%s' % (tk, cls, lraw.split(':')[-1]), 'validator rejects a list/union literal the reference accepts (items/members agree with the reference)', c, idx,
                                expected='accept', observed=lraw)
@@ -753,6 +799,34 @@ def add_value(c, t, raw, r, pfrac, seen, x=False, role='main', parse=True):
         c.meta.setdefault('pending', []).append((t.name, raw, att))
 
 
+def add_parts(c, t, raw, r, seen, depth=0):
+    """v steps (route 1 only) of the same literal against the base / item / member types, recursively: feeds the
+    restriction-never-widens and list/union-combination rules and the attribution of consequential disagreements"""
+    if depth > 4:
+        return
+    s = norm_for(t, raw)
+    if t.builtin:
+        if t.variety == 'list':
+            for tok in s.split(' '):
+                if tok:
+                    add_value(c, t.item, tok, r, 0, seen, role='item', parse=False)
+        return
+    if t.base is not None:
+        if norm_for(t.base, raw) == s:
+            add_value(c, t.base, raw, r, 0, seen, role='base', parse=False)
+            add_parts(c, t.base, raw, r, seen, depth + 1)
+        return
+    if t.variety == 'list':
+        for tok in s.split(' '):
+            if tok:
+                add_value(c, t.item, tok, r, 0, seen, role='item', parse=False)
+                add_parts(c, t.item, tok, r, seen, depth + 1)
+    elif t.variety == 'union':
+        for m in t.members:
+            add_value(c, m, s, r, 0, seen, role='member', parse=False)
+            add_parts(c, m, s, r, seen, depth + 1)
+
+
 def finish_case(c, order, elem_types):
     """append schema + parse steps (after all v steps so that the judge knows the route 1 verdicts)"""
     pend = c.meta.pop('pending', [])
@@ -767,7 +841,7 @@ def finish_case(c, order, elem_types):
             ets.append(env[tn])
     c.doc(D.schema_text(order, ets), k='schema')
     for tn, raw, att in pend:
-        c.doc(D.instance_doc(env[tn], raw, att), k='p', t=tn, raw=raw, att=att, i='%d' % len(c.steps))
+        c.doc(D.instance_doc(env[tn], raw, att == '1'), k='p', t=tn, raw=raw, att=att, i='%d' % len(c.steps))
 
 
 def chunk_builtin(r, tname, cfg, cid):
@@ -836,10 +910,7 @@ def chunk_restriction(r, cfg, cid, steps):
             raws.append(r.choice([' ', '\n', '\t ']) + raw + r.choice([' ', '', '\r\n']))
     for raw in raws:
         add_value(c, cur, raw, r, cfg['pfrac'], seen)
-        # the same literal against every ancestor (restriction-never-widens rule)
-        for a in cur.chain()[1:steps + 1]:
-            if norm_for(a, raw) == norm_for(cur, raw):
-                add_value(c, a, raw, r, 0, seen, role='base', parse=False)
+        add_parts(c, cur, raw, r, seen)       # the same literal against every ancestor (restriction-never-widens rule)
     finish_case(c, order, [])
     return [c]
 
@@ -903,14 +974,7 @@ def chunk_list(r, cfg, cid):
         if r.random() < 0.15:
             raw = ' ' + raw + '\n'
         add_value(c, cur, raw, r, cfg['pfrac'], seen)
-        if cur is not lt:
-            add_value(c, lt, raw, r, 0, seen, role='base', parse=False)
-        for tok in D.ws_collapse(raw).split(' '):
-            if tok:
-                add_value(c, item, tok, r, 0, seen, role='item', parse=False)
-                if item.variety == 'union':
-                    for m in item.members:
-                        add_value(c, m, tok, r, 0, seen, role='member', parse=False)
+        add_parts(c, cur, raw, r, seen)
     finish_case(c, order, [])
     return [c]
 
@@ -954,10 +1018,7 @@ def chunk_union(r, cfg, cid):
     seen = set()
     for raw in lits:
         add_value(c, cur, raw, r, cfg['pfrac'], seen)
-        if cur is not ut:
-            add_value(c, ut, raw, r, 0, seen, role='base', parse=False)
-        for m in members:
-            add_value(c, m, raw, r, 0, seen, role='member', parse=False)
+        add_parts(c, cur, raw, r, seen)
     finish_case(c, order, [])
     return [c]
 
@@ -1096,7 +1157,17 @@ def run_isolated(binary, cases, F, tag='c09'):
     rounds = 0
     while todo and rounds < 40:
         rounds += 1
-        recs = core.run_shard(binary, todo, tag=tag, per_case_timeout=60.0)
+        recs = None
+        for attempt in range(8):
+            try:
+                recs = core.run_shard(binary, todo, tag=tag, per_case_timeout=60.0)
+                break
+            except RuntimeError as e:
+                # the shared build cache may be relinking the library at this very moment (another check rebuilding after a
+                # commit in /repo): the driver cannot start; wait and try again
+                if 'no progress' not in str(e) or attempt == 7:
+                    raise
+                time.sleep(4 + 3 * attempt)
         again = []
         for c in todo:
             rec = recs.get(c.id)
@@ -1147,6 +1218,11 @@ def run_chunk(args):
 
 def run(tier):
     ck = core.Check(PID, tier)
+    extra = os.environ.get('XV_C09_EXTRA_KNOWN')
+    if extra and os.path.exists(extra):
+        # convenience for trying out proposed known-finding entries (notes/C09.known.json) before they are merged into
+        # known_findings.json; never set by the registered check command
+        ck.known = list(ck.known) + json.load(open(extra))
     binary = build.ensure('asan', parts=['dtype'])
     seed = ck.seed
     chunks = plan(tier, seed)
